@@ -10,17 +10,8 @@ Variable H : bytes -> bytes.
 
 Definition collision : Prop := exists x y : bytes, x <> y /\ H x = H y.
 
-(** all cached hashes in a node are the hashes the hasher would compute *)
-Definition caches_ok (n : node) : Prop :=
-  forall force, fst (hash_node H n force) = fst (hash_node H (erase n) force).
-
-(** intermediate Hash() calls never change later roots: the caches written by hasher.hash and
-    kept by insert/delete (fresh flags on every rebuilt node) stay correct *)
-Definition C07_hash_cache_correct_statement : Prop :=
-  forall st ops, (forall s, caches_ok (slot st s)) ->
-  forall s, caches_ok (slot (fold_left (fun st o => fst (step H st o)) ops st) s).
-
-(** commit + reopen: a committed trie reopened by root hash has the same content and root *)
+(** commit + reopen (hash nodes, database resolution, decodeNode): a committed trie reopened by
+    root hash has the same content and root *)
 Definition C07_reopen_statement : Prop :=
   forall d n kb, canon n ->
   let '(h, _, set) := trie_commit H n in
